@@ -494,11 +494,14 @@ MODEL_RECORDS = [
     {'pos': 81, 'ref': 'G', 'alts': ('A', 'T'), 'samples': {'S1': ('G', 'A'), 'S2': ('T', 'T'), 'S3': ('G', 'G')}},             # three alleles, G>A ignored
     {'pos': 91, 'ref': 'A', 'alts': ('C',), 'samples': {'S1': ('A', 'A'), 'S2': ('C', 'AC'), 'S3': ('A', 'C')}},                # one multi-base allele among bases
     {'pos': 101, 'ref': 'T', 'alts': ('G',), 'samples': {'S1': ('T', 'G'), 'S2': (None, 'G'), 'S3': ('T', 'T')}},
+    {'pos': 111, 'ref': 'C', 'alts': ('T',), 'samples': {'S1': ('C', 'T'), 'S2': (None, None), 'S3': ('C', 'C')}},               # ignored conversion next to a missing call
+    {'pos': 121, 'ref': 'G', 'alts': ('A',), 'samples': {'S1': ('G', 'A'), 'S2': ('A', None), 'S3': (None, 'G')}},
+    {'pos': 131, 'ref': 'A', 'alts': ('AC',), 'samples': {'S1': ('A', 'AC'), 'S2': (None, None), 'S3': ('A', 'A')}},             # indel next to a missing call
 ]
 
 
 def site_selection_model(ctx):
-    """AlleleResolver.fetchChromosome run by the abstract interpreter on ten model VCF records (SNVs, an ignored conversion, indels - one a piece of "ACGT" -, missing calls,
+    """AlleleResolver.fetchChromosome run by the abstract interpreter on thirteen model VCF records (SNVs, an ignored conversion, indels - one a piece of "ACGT" -, missing calls,
     three alleles) for phased / unphased x no selection / two of three samples / one sample x with and without ignored conversions, and on a file without samples: the
     table holds exactly the sites, bases and samples the property prescribes.  (ok, cases, witness) or None outside the interpreted subset.  Cached per run."""
     if hasattr(ctx, '_site_model'):
@@ -890,7 +893,7 @@ def r7(ctx):
                  what='AlleleResolver.fetchChromosome stores a multi-base allele as a base')
 
 
-@rule('C18', 'C18-R8', 'site selection as a whole, run by the abstract interpreter: fetchChromosome on ten model VCF records (SNVs, ignored conversions, indels, missing calls, three alleles) x phased / unphased '
+@rule('C18', 'C18-R8', 'site selection as a whole, run by the abstract interpreter: fetchChromosome on thirteen model VCF records (SNVs, ignored conversions, indels, missing calls, three alleles) x phased / unphased '
                        'x sample selections x ignored conversions, and on a file without samples, leaves exactly the prescribed (position, base, samples) entries in the table')
 def r8(ctx):
     m = site_selection_model(ctx)
